@@ -7,12 +7,15 @@ import (
 	"github.com/attestantio/dirk/rules"
 	"github.com/attestantio/dirk/services/checker"
 	"github.com/attestantio/dirk/services/ruler"
+	pb "github.com/wealdtech/eth2-signer-api/pb/v1"
+	e2wtypes "github.com/wealdtech/go-eth2-wallet-types/v2"
 	"os"
 	"path/filepath"
 	"runtime"
 	"strconv"
 	"strings"
 	"sync"
+	"sync/atomic"
 	"time"
 
 	"github.com/attestantio/dirk/core"
@@ -527,6 +530,48 @@ func cmdConc(prop string, args []string) int {
 			stats["load.rounds"]++
 		}
 		// very large batches through the ruler itself (any size must complete and leave nothing locked)
+		// batch sizes just above the number of processors, for several numbers of processors (the fan-out of a
+		// batch over workers depends on both)
+		for _, procs := range []int{2, 3, 4, 5, 7, 16} {
+			if len(monFail) > 0 {
+				break
+			}
+			for _, n := range []int{procs + 1, procs + 2, 2*procs + 1, 3*procs - 1, 3 * procs, 5*procs + 3} {
+				epoch += 2
+				data := make([]*ruler.RulesData, n)
+				for i := range data {
+					data[i] = &ruler.RulesData{WalletName: "Big", AccountName: fmt.Sprintf("P%d", i), PubKey: rng.Bytes(48),
+						Data: &rules.SignBeaconAttestationData{Domain: mkDomain(domAttester, 0), Slot: epoch * 32, BeaconBlockRoot: fill32(1),
+							Source: &rules.Checkpoint{Epoch: epoch - 1, Root: fill32(0)}, Target: &rules.Checkpoint{Epoch: epoch, Root: fill32(1)}}}
+				}
+				old := runtime.GOMAXPROCS(procs)
+				done := make(chan []rules.Result, 1)
+				go func() {
+					done <- inst.RealRuler.RunRules(ctx, &checker.Credentials{Client: "client1", IP: "10.0.0.1"}, ruler.ActionSignBeaconAttestation, data)
+				}()
+				stuckHere := false
+				select {
+				case res := <-done:
+					ok := 0
+					for _, r := range res {
+						if r == rules.APPROVED {
+							ok++
+						}
+					}
+					if ok != n {
+						monFail = append(monFail, fmt.Sprintf("a batch of %d fresh, valid attestations through the ruler (GOMAXPROCS %d) got %d approvals", n, procs, ok))
+					}
+					stats["procbatch.completed"]++
+				case <-time.After(30 * time.Second):
+					monFail = append(monFail, fmt.Sprintf("a batch of %d attestations over distinct keys through the ruler with GOMAXPROCS %d never completed (30 s)", n, procs))
+					stuckHere = true
+				}
+				runtime.GOMAXPROCS(old)
+				if stuckHere {
+					break
+				}
+			}
+		}
 		sizes := []int{2, 255, 256, 257, 600, 1025, 2048}
 		if cf.tier == "thorough" {
 			sizes = append(sizes, 2049, 5000)
@@ -585,6 +630,70 @@ func cmdConc(prop string, args []string) int {
 			}
 			if len(monFail) > 0 {
 				break
+			}
+		}
+		// accounts created after start-up: requests naming them by public key keep completing while further
+		// accounts are being registered with the account cache (what an account generation does when it ends)
+		if len(monFail) == 0 {
+			if w, err := fx.Fetcher.FetchWallet(ctx, "Wallet 1"); err == nil {
+				if l, ok := w.(e2wtypes.WalletLocker); ok {
+					_ = l.Unlock(ctx, nil)
+				}
+				var made []e2wtypes.Account
+				for i := 0; i < 20; i++ {
+					if a, err := w.(e2wtypes.WalletAccountCreator).CreateAccount(ctx, fmt.Sprintf("Runtime %d", i), []byte("pass")); err == nil {
+						made = append(made, a)
+					}
+				}
+				if len(made) == 20 {
+					for _, a := range made[:6] {
+						_ = fx.Fetcher.AddAccount(ctx, w, a)
+					}
+					finished := make(chan int, 1)
+					go func() {
+						var wg sync.WaitGroup
+						stop := make(chan struct{})
+						signed := int64(0)
+						for g := 0; g < 8; g++ {
+							wg.Add(1)
+							go func(g int) {
+								defer wg.Done()
+								hctx := ctxWithClient(ctx, "client1", "10.0.0.1")
+								for i := 0; ; i++ {
+									select {
+									case <-stop:
+										return
+									default:
+									}
+									a := made[(g+i)%6]
+									res, err := inst.Handler.Sign(hctx, &pb.SignRequest{Id: &pb.SignRequest_PublicKey{PublicKey: a.PublicKey().Marshal()}, Domain: mkDomain(domRandao, 0), Data: fill32(byte(i))})
+									if err == nil && res.GetState() == pb.ResponseState_SUCCEEDED {
+										atomic.AddInt64(&signed, 1)
+									}
+								}
+							}(g)
+						}
+						for round := 0; round < 40; round++ {
+							for _, a := range made[6:] {
+								_ = fx.Fetcher.AddAccount(ctx, w, a)
+							}
+							time.Sleep(2 * time.Millisecond)
+						}
+						close(stop)
+						wg.Wait()
+						finished <- int(atomic.LoadInt64(&signed))
+					}()
+					select {
+					case n := <-finished:
+						stats["runtime-accounts.signed"] = n
+						if n == 0 {
+							monFail = append(monFail, "requests by public key for accounts created after start-up: none was signed")
+						}
+					case <-time.After(40 * time.Second):
+						monFail = append(monFail, "signing requests naming accounts created after start-up by public key stopped completing while further accounts were being registered with the account cache (40 s)")
+						stats["stuck"]++
+					}
+				}
 			}
 		}
 		// callers that give up - a cancelled or expired request context, before or while the locks
